@@ -64,6 +64,11 @@ func HarnessC18() {
 	envMkdir(wTarget, 0755, 100)
 	envChdir("/w")
 	nPkgs := verif.Param("nPkgs", 1)
+	root := wTarget
+	if verif.Bool("root.via-link") { // the bundle is opened by way of a symlink to its directory
+		envSymlink("/w/lt", "t", 100)
+		root = "/w/lt"
+	}
 	m := manifestRoot{FormatVersion: uint64(verif.Choose("format", 3))}
 	for i := 0; i < nPkgs; i++ {
 		d := verif.String("localdir", 0, verif.Param("nDir", 3))
@@ -75,7 +80,7 @@ func HarnessC18() {
 	}
 	envWriteManifest(wTarget, &m)
 	envBaseline()
-	b, err := OpenDir(wTarget)
+	b, err := OpenDir(root)
 	if err != nil {
 		verif.Reach("refused")
 		return
@@ -92,13 +97,13 @@ func HarnessC18() {
 		p, err := b.LocalPathForRemoteSource(pkg.SourceAddr(sub))
 		verif.Assert("C18-forward-lookup-succeeds-for-listed-package", err == nil)
 		if err == nil {
-			verif.Assert("C18-forward-lookup-inside-root", wHasPrefix(p, wTarget+"/"))
+			verif.Assert("C18-forward-lookup-inside-root", wHasPrefix(p, root+"/"))
 		}
 	}
 	// reverse lookups
 	rel := verif.String("path", 0, verif.Param("nPath", 4))
 	verif.Assume(c18ASCII(rel))
-	full := wTarget + "/" + rel
+	full := root + "/" + rel
 	src, err := b.SourceForLocalPath(full)
 	clean := c18Clean(full)
 	// package directories as the opened bundle knows them (a later duplicate entry for the same
@@ -121,4 +126,56 @@ func HarnessC18() {
 		verif.Reach("outside-packages")
 		verif.Assert("C18-path-outside-packages-is-reported", err != nil)
 	}
+}
+
+// HarnessC19Manifest: OpenDir on manifests with package and registry entries drawn from menus that
+// include invalid addresses, invalid version strings, duplicates (also under two spellings of one
+// registry package) and entries without versions, followed by every accessor: none of it panics.
+var c19PkgAddrs = []string{"git::https://h/p0.git", "https://h/a.tgz", "git::https://h/p0.git//sub", "not an address", ""}
+var c19RegAddrs = []string{"hashicorp/subnets/cidr", "registry.terraform.io/hashicorp/subnets/cidr", "example.com/a/b/c", "a/b", ""}
+var c19Versions = []string{"1.0.0", "1.1.0", "v1.0.0", "one", ""}
+
+func HarnessC19Manifest() {
+	envReset()
+	envMkdir("/w", 0755, 100)
+	envMkdir(wTarget, 0755, 100)
+	envChdir("/w")
+	m := manifestRoot{FormatVersion: uint64(verif.Choose("format", 3))}
+	for i := 0; i < verif.Param("nPkgs", 1); i++ {
+		p := manifestRemotePackage{SourceAddr: c19PkgAddrs[verif.Choose("pkg.addr", len(c19PkgAddrs))], LocalDir: []string{"a", "b", "", "..", "a/b"}[verif.Choose("pkg.dir", 5)]}
+		if verif.Bool("pkg.meta") {
+			p.Meta = manifestPackageMeta{GitCommitID: "id", GitCommitMessage: "msg"}
+		}
+		m.Packages = append(m.Packages, p)
+	}
+	for i := 0; i < verif.Param("nRegs", 2); i++ {
+		r := manifestRegistryMeta{SourceAddr: c19RegAddrs[verif.Choose("reg.addr", len(c19RegAddrs))]}
+		switch verif.Choose("reg.versions", 4) {
+		case 1:
+			r.Versions = map[string]manifestRegistryVersion{c19Versions[verif.Choose("reg.version", len(c19Versions))]: {SourceAddr: c19PkgAddrs[verif.Choose("reg.target", len(c19PkgAddrs))]}}
+		case 2:
+			r.Versions = map[string]manifestRegistryVersion{"1.0.0": {SourceAddr: "git::https://h/p0.git", Deprecation: &RegistryVersionDeprecation{Version: "1.0.0", Reason: "r", Link: "l"}}}
+		case 3:
+			r.Versions = map[string]manifestRegistryVersion{"1.0.0": {SourceAddr: "git::https://h/p0.git"}, "2.0.0": {SourceAddr: "git::https://h/p0.git//sub"}}
+		}
+		m.RegistryMeta = append(m.RegistryMeta, r)
+	}
+	envWriteManifest(wTarget, &m)
+	b, err := OpenDir(wTarget)
+	if err != nil {
+		verif.Reach("manifest-refused")
+		return
+	}
+	verif.Reach("manifest-opened")
+	for _, pkg := range b.RemotePackages() {
+		b.RemotePackageMeta(pkg)
+		b.LocalPathForRemoteSource(pkg.SourceAddr(""))
+	}
+	for _, rp := range b.RegistryPackages() {
+		for _, v := range b.RegistryPackageVersions(rp) {
+			b.RegistryPackageSourceAddr(rp, v)
+			b.RegistryPackageVersionDeprecation(rp, v)
+		}
+	}
+	b.ChecksumV1()
 }
